@@ -507,16 +507,44 @@ def insert_into(tree, src):
     if not (isinstance(s3, ast.If) and dotted(s3.test) == "self._by_name" and not s3.orelse and len(s3.body) == 2):
         raise Untranslatable("insertInto: byName branch changed")
     c0, c1 = s3.body
-    if not (isinstance(c0, ast.Assign) and dotted(c0.targets[0]) == "columns" and isinstance(c0.value, ast.Call)
-            and c0.value.args and dotted(c0.value.args[0]) == "tableName"):
-        raise Untranslatable("insertInto: columns = ... changed")
-    srcname = dotted(c0.value.func)
-    if srcname == "self._session.catalog._schema.column_names":
-        source = "ByCache"
-    elif srcname in ("self._session.catalog.get_columns", "self._session.catalog.listColumns"):
-        source = "ByEngine"
+
+    def columns_source(st):
+        """`columns = <call or comprehension over call>(tableName ...)` -> dotted name of the call that yields the names"""
+        if not (isinstance(st, ast.Assign) and dotted(st.targets[0]) == "columns"):
+            raise Untranslatable("insertInto: columns = ... changed")
+        v = st.value
+        if isinstance(v, ast.ListComp) and len(v.generators) == 1 and not v.generators[0].ifs:
+            # [normalize_string(name, ...) for name in <call>(tableName)]
+            g = v.generators[0]
+            if not (isinstance(v.elt, ast.Call) and dotted(v.elt.func) == "normalize_string"
+                    and len(v.elt.args) == 1 and dotted(v.elt.args[0]) == dotted(g.target)):
+                raise Untranslatable("insertInto: byName column comprehension changed")
+            v = g.iter
+        if not (isinstance(v, ast.Call) and v.args and dotted(v.args[0]) == "tableName"):
+            raise Untranslatable("insertInto: columns = ... changed")
+        return dotted(v.func)
+
+    CACHE = "self._session.catalog._schema.column_names"
+    ENGINE = ("self._session.catalog.get_columns", "self._session.catalog.listColumns")
+    if isinstance(c0, ast.Try):
+        # try: columns = <engine lookup>   except NotImplementedError: columns = <declared columns>   (no catalog to ask)
+        ok_try = (len(c0.body) == 1 and len(c0.handlers) == 1 and not c0.orelse and not c0.finalbody
+                  and dotted(c0.handlers[0].type) == "NotImplementedError" and len(c0.handlers[0].body) == 1)
+        if not ok_try:
+            raise Untranslatable("insertInto: byName try/except changed")
+        first, fallback = columns_source(c0.body[0]), columns_source(c0.handlers[0].body[0])
+        if first in ENGINE and fallback == CACHE:
+            source = "ByEngine"        # on a session with a connection (the check's domain) the engine answers
+        else:
+            raise Untranslatable(f"insertInto: byName columns come from {first} / {fallback}")
     else:
-        raise Untranslatable(f"insertInto: byName columns come from {srcname}")
+        srcname = columns_source(c0)
+        if srcname == CACHE:
+            source = "ByCache"
+        elif srcname in ENGINE:
+            source = "ByEngine"
+        else:
+            raise Untranslatable(f"insertInto: byName columns come from {srcname}")
     oksel = (isinstance(c1, ast.Assign) and dotted(c1.targets[0]) == "df" and isinstance(c1.value, ast.Call)
              and isinstance(c1.value.func, ast.Attribute) and c1.value.func.attr == "select"
              and isinstance(c1.value.func.value, ast.Call) and dotted(c1.value.func.value.func) == "df._convert_leaf_to_cte"
@@ -543,12 +571,31 @@ def add_table_policy(tree, src):
             and dotted(last.value.func) == "self._schema.add_table"):
         raise Untranslatable("add_table: does not end in self._schema.add_table(...)")
     early = [s for s in body[1:-1] if isinstance(s, ast.If) and any(isinstance(x, ast.Return) for x in s.body)]
-    if not early:
-        keep = False
-    elif len(early) == 1 and early[0] is body[1] and isinstance(early[0].test, ast.Call) \
+    if len(early) == 1 and early[0] is body[1] and isinstance(early[0].test, ast.Call) \
             and dotted(early[0].test.func) == "self._schema.find" and dotted(early[0].test.args[0]) == "table" \
             and len(early[0].body) == 1 and early[0].body[0].value is None and not early[0].orelse:
-        keep = True
+        keep = True                    # add-if-absent: `if self._schema.find(table): return`
+    elif not early:
+        # update-or-add: every `return` sits inside `if column_mapping is None:` and only gives up when the engine cannot
+        # be asked (except NotImplementedError) or knows no column of the table (`existing and not column_mapping`)
+        rets = [n for st in body for n in ast.walk(st) if isinstance(n, ast.Return)]
+        lookups = [st for st in body if isinstance(st, ast.If) and isinstance(st.test, ast.Compare)
+                   and dotted(st.test.left) == "column_mapping" and isinstance(st.test.ops[0], ast.Is)]
+        if len(lookups) != 1:
+            raise Untranslatable("add_table: `if column_mapping is None:` block not found")
+        inside = [n for n in ast.walk(lookups[0]) if isinstance(n, ast.Return)]
+        if len(inside) != len(rets):
+            raise Untranslatable("add_table: a return outside the engine-lookup block")
+        allowed = 0
+        for n in ast.walk(lookups[0]):
+            if isinstance(n, ast.ExceptHandler) and dotted(n.type) == "NotImplementedError":
+                allowed += sum(1 for x in ast.walk(n) if isinstance(x, ast.Return))
+            if isinstance(n, ast.If) and isinstance(n.test, ast.BoolOp) and isinstance(n.test.op, ast.And) \
+                    and [ast.unparse(v) for v in n.test.values] == ["existing", "not column_mapping"]:
+                allowed += sum(1 for x in n.body if isinstance(x, ast.Return))
+        if allowed != len(rets):
+            raise Untranslatable("add_table: early-return logic changed")
+        keep = False
     else:
         raise Untranslatable("add_table: early-return logic changed")
     # the columns of a new entry come from the engine
